@@ -315,12 +315,14 @@ def compile_text(text):
     out = os.path.join(_wd, "out", "t.eql.rs")
     if os.path.exists(out):
         os.unlink(out)
-    try:
-        p = subprocess.run([common.EQLOG_BIN, os.path.join(_wd, "src"), os.path.join(_wd, "out")], stdout=subprocess.PIPE,
-                           stderr=subprocess.PIPE, timeout=60, env=common.env_offline({"RUST_BACKTRACE": "0"}))
-        return p.returncode, p.stderr.decode("utf-8", "replace")
-    except subprocess.TimeoutExpired:
-        return -9, "timeout"
+    for limit in (60, 600):
+        try:
+            p = subprocess.run([common.EQLOG_BIN, os.path.join(_wd, "src"), os.path.join(_wd, "out")], stdout=subprocess.PIPE,
+                               stderr=subprocess.PIPE, timeout=limit, env=common.env_offline({"RUST_BACKTRACE": "0"}))
+            return p.returncode, p.stderr.decode("utf-8", "replace")
+        except subprocess.TimeoutExpired:
+            continue
+    return -9, "timeout"
 
 
 def judge(label, text):
@@ -352,6 +354,8 @@ def judge(label, text):
     allowed = an.present | an.possible
     if cls is None:
         return "bad", "unknown-message", f"unclassifiable error message: {first}", "rejected"
+    if cls in an.any_line:
+        return "ok", None, None, "rejected:" + cls
     if not any(c == cls for c, _ in allowed):
         return "bad", f"wrong-class:{cls}", f"reported error `{first}` (line {line}) is not a defect the reference finds: {sorted(allowed)}", "rejected"
     if not any(c == cls and l == line for c, l in allowed):
